@@ -160,6 +160,7 @@ type kpc =
 | KArm
 | KHandle
 | KGon
+| KReg
 | KStore
 | KChk
 | KStake
@@ -174,8 +175,8 @@ type kpc =
 | KCchk
 | KC1
 | KC2
-| KC3
 | KC3s
+| KC3
 | KC4
 | KGoff
 
@@ -343,15 +344,15 @@ val after_ftake : bool -> bool -> kpc
 
 val after_run : bool -> kpc
 
-val setco_ahead : kpc -> bool
+val setco_ahead : bool -> kpc -> bool
 
 val ustep : st -> st option
 
-val kstep : bool -> bool -> st -> st option
+val kstep : bool -> bool -> bool -> st -> st option
 
-val step : bool -> bool -> st -> action -> st option
+val step : bool -> bool -> bool -> st -> action -> st option
 
-val run : bool -> bool -> st -> action list -> st option
+val run : bool -> bool -> bool -> st -> action list -> st option
 
 val kholds : kpc -> bool
 
